@@ -26,7 +26,8 @@ def _rule_vocabulary():
         here = os.path.dirname(os.path.abspath(__file__))
         words = set()
         for f in glob.glob(os.path.join(here, "*.py")) + glob.glob(os.path.join(here, "rules", "*.py")):
-            words |= set(re.findall(r"[A-Za-z_]\w*", open(f).read()))
+            src = "\n".join(l.split("#", 1)[0] if l.lstrip().startswith("#") else l for l in open(f).read().splitlines())
+            words |= set(re.findall(r"[A-Za-z_]\w*", src))
         _RULE_VOCAB = words
     return _RULE_VOCAB
 
@@ -133,6 +134,7 @@ class Scanner:
         self.iter_alias = {}       # iterator local walking a container in a counted loop -> (base, idx tuple): *it is base[idx]
         self.cur = {}              # scalar local written more than once -> (current value | None, guard depth, loop depth at its declaration)
         self.inline_value = {}     # call node id -> value of an inlined helper call
+        self._inlined_decls = set()
         self.inlined = []          # (call node, callee name) of the helper calls that were looked into
         self._inline_depth = 0
         self.lambdas = {}          # local decl -> LambdaExpr node
@@ -324,6 +326,13 @@ class Scanner:
                     return base, idx[0]
         if n.get("k") == "BinaryOperator" and n.get("op") == "+":
             l, r = A.strip(n["c"][0]), n["c"][1]
+            if l.get("k") == "CXXMemberCallExpr" and (l.get("callee") or "").split("::")[-1] == "data" and A.call_object(l) is not None and \
+                    "std::" in (l.get("callee") or ""):
+                off = self._try(r)
+                o_ = A.strip(A.call_object(l))
+                nm_ = A.this_field(o_) or (A.declref(o_) or {}).get("name")
+                if off is not None and nm_:
+                    return nm_, off         # v.data() + e points at v[e]
             if _is_ptr(l.get("ctype")):
                 off = self._try(r)
                 if off is not None and l.get("k") in ("DeclRefExpr", "MemberExpr"):
@@ -403,8 +412,9 @@ class Scanner:
                     continue
             if k == "DeclRefExpr" and x.get("decl") in self.ref_alias:
                 b_, i_, p_ = self.ref_alias[x["decl"]]
-                g, l = self._ctx()
-                self.accesses.append(Access("load", b_, i_, p_, x, x["line"], g, l))
+                if i_ is not None:
+                    g, l = self._ctx()
+                    self.accesses.append(Access("load", b_, i_, p_, x, x["line"], g, l))
                 continue
             if first_elem and (k == "ArraySubscriptExpr" or (k == "CXXOperatorCallExpr" and x.get("op") == "[]")):
                 # binding a reference to the element reads the index expressions only
@@ -474,7 +484,7 @@ class Scanner:
             if d is not None and d["decl"] in self.lambdas:
                 lam = self.lambdas[d["decl"]]
                 if lam.get("body") is not None and lam.get("params") is not None:
-                    return ("lambda " + d["name"], lam["params"], lam["body"], x["args"][1:])
+                    return ("lambda " + d["name"], lam["params"], lam["body"], x["args"][1:], None)
             return None
         if k not in ("CallExpr", "CXXMemberCallExpr") or PROGRAM is None:
             return None
@@ -492,7 +502,7 @@ class Scanner:
             return None
         if len(f["params"]) < len(x.get("args", [])):
             return None
-        return (x["callee"], f["params"], f["body"], x.get("args", []))
+        return (x["callee"], f["params"], f["body"], x.get("args", []), f)
 
     def _inline(self, x):
         if self._inline_depth >= 3:
@@ -500,7 +510,7 @@ class Scanner:
         tgt = self._inline_target(x)
         if tgt is None:
             return
-        name, params, body, args = tgt
+        name, params, body, args, callee_fn = tgt
         if len(args) < len([p for p in params]):
             # default arguments are not followed
             if len(args) != len(params):
@@ -508,7 +518,8 @@ class Scanner:
         saved_assigned = dict(self.assigned)
         sub = _count_assignments({"body": body})
         for k_, v_ in sub.items():
-            self.assigned[k_] = self.assigned.get(k_, 0) + v_
+            self.assigned[k_] = saved_assigned.get(k_, 0) + v_ if k_ not in self._inlined_decls else v_
+            self._inlined_decls.add(k_)
         for p_, a_ in zip(params, args):
             self.locals[p_["decl"]] = dict(p_, k="ParmVarDecl", init=a_)
             if _is_lref(p_.get("type")) or _is_lref(p_.get("ctype")):
@@ -517,7 +528,7 @@ class Scanner:
                     b_, i_, pth_, _n = self._lvalue(tgt_)
                 except Exception:
                     b_, i_, pth_ = None, None, ""
-                if b_ is not None and i_ is not None:
+                if b_ is not None and (i_ is not None or tgt_.get("k") in ("MemberExpr", "DeclRefExpr")):
                     self.ref_alias[p_["decl"]] = (b_, i_, pth_)
                 v = self._try(a_)
                 if v is not None:
@@ -541,7 +552,7 @@ class Scanner:
         finally:
             self._inline_depth -= 1
         rets, self.returns = self.returns, saved_returns
-        self.inlined.append((x, name))
+        self.inlined.append((x, name, body, callee_fn))
         with_value = [r for r in rets if r[0].get("c")]
         if len(with_value) == 1 and len(rets) == 1:
             v = self._try(with_value[0][0]["c"][0])
@@ -667,7 +678,7 @@ class Scanner:
                         tgt = A.strip(tgt["c"][0], casts=False)
                     if tgt.get("k") in ("ArraySubscriptExpr", "MemberExpr", "DeclRefExpr") or (tgt.get("k") == "CXXOperatorCallExpr" and tgt.get("op") == "[]"):
                         b_, i_, p_, _n = self._lvalue(tgt)
-                        if i_ is not None:
+                        if i_ is not None or tgt.get("k") == "MemberExpr":
                             self.ref_alias[d["decl"]] = (b_, i_, p_)
                 if "init" in d:
                     self._loads(d["init"], skip_outer_element=d["decl"] in self.ref_alias)
@@ -1014,7 +1025,14 @@ class Scanner:
         d_ = A.declref(b)
         if d_ is not None and d_.get("decl") in self.ptr_alias:
             # the access was already re-based onto the array the pointer points into (its index carries the pointer's offset)
-            return sp.Symbol(self.ptr_alias[d_["decl"]][0], real=True)
+            bname = self.ptr_alias[d_["decl"]][0]
+            for dd, loc in self.locals.items():
+                if loc.get("name") == bname:
+                    if dd in self.tr.env and _is_ptr(loc.get("ctype") or loc.get("type")):
+                        return self.tr.env[dd]          # a pointer local that holds an accessor's result: name the accessor call
+                    if any(t_ in (loc.get("ctype") or "") for t_ in ("std::vector", "std::array")):
+                        return sp.Function("data")(sp.Symbol(bname, real=True))
+            return sp.Symbol(bname, real=True)
         v = self._try(b)
         if v is None:
             v = sp.Symbol(A.show(b).replace(" ", ""), real=True)
@@ -1081,6 +1099,11 @@ class Scanner:
             v = const_of(k_)
             if v is not None and const_of(e_) is None and ("enum" in (e_.get("ctype") or "") or "::" in (e_.get("type") or "")):
                 return e_, v
+        # a plain integer variable compared with a literal (if (rank == 3) ... else if (rank == 4) ...): the same selection as a switch
+        for e_, k_ in ((l, r), (r, l)):
+            if k_.get("k") == "IntegerLiteral" and e_.get("k") == "DeclRefExpr" and e_.get("dkind") in ("Var", "ParmVar") and \
+                    (e_.get("ctype") or "").replace("const ", "") in ("int", "unsigned int", "long", "unsigned long", "short", "unsigned char", "signed char", "char"):
+                return e_, k_.get("value")
         return None
 
     BUNCH_COUNTS = ("PhaseSpace_nb", "_nbunches", "nb")
@@ -1146,6 +1169,14 @@ class Scanner:
                 t2["op"] = "!="
                 c = t2
                 pol = not pol
+            if isinstance(t, dict) and t.get("k") == "BinaryOperator" and not pol and len(t.get("c", [])) == 2 and t.get("op") in ("==", "!=", "<", ">", "<=", ">=") and \
+                    not any(A.strip(x_).get("k") in ("CXXNullPtrLiteralExpr", "GNUNullExpr") for x_ in t["c"]) and \
+                    not any("float" in (A.strip(x_).get("ctype") or "") or "double" in (A.strip(x_).get("ctype") or "") for x_ in t["c"]):
+                # a comparison that is known to be false is its complement known to be true (integers only: NaN breaks this for floats)
+                t2 = dict(t)
+                t2["op"] = {"==": "!=", "!=": "==", "<": ">=", ">": "<=", "<=": ">", ">=": "<"}[t["op"]]
+                c = t2
+                pol = True
             break
         return (c, pol)
 
